@@ -56,7 +56,6 @@ NAME_POOLS = [
     ['m1', 'zz', 'aa', 'q9', 'mid'],
 ]
 FAKE_FC = 'VF_FAKE_FC'
-REAL_SLOTS = max(2, (os.cpu_count() or 4) // 2)     # concurrent real-pool runs
 
 _quiet = logging.getLogger('vf.c44.quiet')
 _quiet.addHandler(logging.NullHandler())
@@ -469,7 +468,7 @@ def _unit_real(item):
         s = r['sched']
         if [list(e) for e in s.trace] != [list(e) for e in item['trace']]:
             return dict(uid=item['uid'], bad=f'model replay of {item["trace"]} gave {s.trace}')
-        with vsched.real_slot(item['scratch'], REAL_SLOTS):
+        with vsched.real_slot(item['scratch'], item.get('slots', 1)):
             for attempt in (1, 2):
                 bad = real_forced(tree, item['W'], [tuple(e) for e in item['trace']], s.assigned_after,
                                   dict(links=r['links'], objects=r['objects']), f'{item["uid"]}_{attempt}',
@@ -486,10 +485,23 @@ def _unit_gfortran(item):
     root = Path(item['scratch']) / f'g{item["uid"]}'
     try:
         tree = Tree(make_case(item['uses'], item['W'], None, item['seed']), root).write()
-        with vsched.real_slot(item['scratch'], REAL_SLOTS):
+        with vsched.real_slot(item['scratch'], item.get('slots', 1)):
             return dict(uid=item['uid'], bad=gfortran_build(tree, item['W']))
     finally:
         shutil.rmtree(root, ignore_errors=True)
+
+
+def is_canonical(uses):
+    """representative of its isomorphism class: lexicographically smallest relabelling"""
+    n = len(uses)
+    me = tuple(tuple(sorted(u)) for u in uses)
+    for perm in itertools.permutations(range(n)):
+        other = [None] * n
+        for i, u in enumerate(uses):
+            other[perm[i]] = tuple(sorted(perm[j] for j in u))
+        if tuple(other) < me:
+            return False
+    return True
 
 
 def _parity(uses):
@@ -514,6 +526,7 @@ def run(ctx):
     dev_nmax = 3 if ctx.quick else 4  # deviation menu (<= 1 deviation) on trees of up to 3 / 4 files
     full_nmax = 3                     # unreduced ("main thread may lag") exploration up to 3 files
     scratch = str(ctx.scratch)
+    slots = max(1, ctx.nproc // 2 if ctx.nproc <= 4 else ctx.nproc // 4)    # real-pool runs alive at the same time (each: manager + W workers + controller + participants)
     units = []
     for n in range(1, nmax + 1):
         for uses in all_dags(n):
@@ -561,23 +574,22 @@ def run(ctx):
                 depth = max(depth, stf['max_choice_depth'])
         if any(u['uses']):
             waited += 1
-        # conformance picks
+        # conformance picks (kept small on purpose: every real-pool run keeps ~8 OS processes alive)
         n = len(u['uses'])
         if u['dev'] is None and n <= 4:
+            canonical4 = (n == 4 and is_canonical(u['uses']))
             for W in (2, 3):
                 tr = r[f'traces_{W}'] or []
-                if n <= 3:
-                    # quick: one event order per distinct order of finish events; thorough: every distinct event order
-                    picks = finish_order_classes(tr) if ctx.quick else tr
-                elif ctx.quick:
-                    picks = []
+                if n <= 3 and (not ctx.quick or W == 2 + _parity(u['uses'])):
+                    picks = finish_order_classes(tr)    # one event order per distinct order of finish events
+                elif canonical4 and not ctx.quick and W == 2 + _parity(u['uses']):
+                    picks = [tr[-1]]                    # the lexicographically last event order
                 else:
-                    # one event order per DAG on 4 files: the lexicographically last one; W by a parity of the edge set
-                    picks = [tr[-1]] if W == 2 + _parity(u['uses']) else []
+                    picks = []
                 for t in picks:
                     real_items.append(dict(uses=u['uses'], dev=None, seed=ctx.seed, W=W, trace=[list(e) for e in t],
                                            scratch=scratch))
-            if n <= (3 if ctx.quick else 4):
+            if n <= 3 or (canonical4 and not ctx.quick):
                 gf_items.append(dict(uses=u['uses'], W=2 + _parity(u['uses']), seed=ctx.seed, scratch=scratch))
     dev_skip = os.environ.get('VF_DEV_SKIP_REAL')      # development only: the run then ends as HARNESS-ERROR
     if dev_skip:
@@ -587,8 +599,10 @@ def run(ctx):
         real_items, gf_items = real_items[:int(dev_skip)], gf_items[:int(dev_skip)]
     for k, it in enumerate(real_items):
         it['uid'] = k
+        it['slots'] = slots
     for k, it in enumerate(gf_items):
         it['uid'] = k
+        it['slots'] = slots
 
     t0 = time.time()
     real_res = ctx.pmap(_unit_real, real_items, chunksize=2, ordered=True)
@@ -619,12 +633,11 @@ def run(ctx):
                                    note='main_mode=full (worker events may fire while the main thread could proceed) on all '
                                         f'baseline trees of <= {full_nmax} files; must yield the same set of event orders'),
         conformance=dict(real_pool_schedules=len(real_items), gfortran_builds=len(gf_items),
-                         selection=('baseline DAGs on <= 3 files, W in (2,3): '
-                                    + ('one event order per distinct order of finish events' if ctx.quick else
-                                       'every distinct event order; DAGs on 4 files: the lexicographically last event order, '
-                                       'W = 2 or 3 by a parity of the edge set')
-                                    + '; gfortran + nm (serial vs parallel build): every baseline DAG on <= '
-                                    + ('3' if ctx.quick else '4') + ' files')),
+                         selection=('one event order per distinct order of finish events for every baseline DAG on <= 3 files, '
+                                    + ('W = 2 or 3 by a parity of the edge set' if ctx.quick else
+                                       'W in (2,3); plus the lexicographically last event order of one DAG per isomorphism class '
+                                       'on 4 files')
+                                    + '; gfortran + nm (serial vs parallel build): the same DAGs')),
         wall=dict(explore=round(t_explore, 1), real_pool=round(t_real, 1), gfortran=round(t_gf, 1)),
         rule='cases = every labelled module-dependency DAG on 1..n files x single deviations; per case the serial build and '
              'every schedule (DFS over all choices of the next start/finish event) for W=2 and W=3; a trace is the sequence '
